@@ -65,6 +65,21 @@ def undefined(params):
             pred = np.array([0, 1, 1, 2, 0, 5, 0, 0], np.uint8)
             ref = np.array([0, 1, 1, 2, 0, 5, 0, 0], np.uint8)
             (pred if which == "pred" else ref)[7] = 3
+            cases = [(pred, ref)]
+            # the undefined label hidden under a larger, defined label of the other array
+            p2 = np.array([0, 1, 1, 2, 0, 5, 0, 0], np.uint8); r2 = p2.copy()
+            (p2 if which == "pred" else r2)[1] = 3
+            (r2 if which == "pred" else p2)[1] = 5
+            cases.append((p2, r2))
+            for pred, ref in cases[1:]:
+                try:
+                    _mk_eval(it, groups).evaluate(pred, ref, verbose=False)
+                    bad.append(f"{it}: undefined label 3 in {which} (covered by a defined label in the other array) was silently accepted")
+                except AssertionError:
+                    pass
+                except Exception as e:
+                    bad.append(f"{it}: unexpected {type(e).__name__}: {e}"[:160])
+            pred, ref = cases[0]
             try:
                 _mk_eval(it, groups).evaluate(pred, ref, verbose=False)
                 bad.append(f"{it}: undefined label 3 in {which} was silently accepted")
